@@ -510,6 +510,74 @@ func ruleGRDelect(w *World, r *Report) {
 		return nil
 	}
 	best := -1
+	// the election written as a yes/no function literal (or helper) of Vacuum — `if !electEntry() { …empty… }`: the empty
+	// outcome hangs on one answer of it, and inside it that answer must be unreachable once a live node was seen
+	{
+		isDel := func(in ssa.Instruction) bool {
+			c, ok := in.(*ssa.Call)
+			if !ok {
+				return false
+			}
+			o := calleeObj(&c.Call)
+			return o != nil && o.Pkg() != nil && o.Pkg().Path() == "sync/atomic" && shortName(o) == "Bool.Load" && recvIsField(c, "Deleted")
+		}
+		for _, in := range findInstrs(fn, func(in ssa.Instruction) bool { _, ok := in.(*ssa.Call); return ok }) {
+			c := in.(*ssa.Call)
+			var g *ssa.Function
+			switch v := c.Call.Value.(type) {
+			case *ssa.MakeClosure:
+				g, _ = v.Fn.(*ssa.Function)
+			case *ssa.Function:
+				g = v
+			default:
+				for _, rt := range valueRoots(c.Call.Value) {
+					if mc, ok := rt.(*ssa.MakeClosure); ok {
+						g, _ = mc.Fn.(*ssa.Function)
+					}
+				}
+			}
+			if g == nil || len(g.Blocks) == 0 || g.Signature.Results().Len() != 1 || !isBoolType(g.Signature.Results().At(0).Type()) || len(findInstrs(g, isDel)) == 0 {
+				continue
+			}
+			tEdges, fEdges := condEdges(c)
+			reach := func(es []edgeKey) bool {
+				for _, e := range es {
+					if f, _ := (pathQuery{fn: fn, target: isEmptyStore}).find(ipos{e.from.Succs[e.succ], -1}); f {
+						return true
+					}
+				}
+				return false
+			}
+			onTrue, onFalse := reach(tEdges), reach(fEdges)
+			if onTrue == onFalse {
+				continue // the empty outcome does not hang on this answer
+			}
+			emptyAnswer := onTrue // the answer of g that leads to "the graph is empty"
+			k := 0
+			for _, t := range findInstrs(g, isDel) {
+				_, live := condEdges(t.(*ssa.Call))
+				if len(live) == 0 {
+					continue
+				}
+				k++
+				bad := false
+				var wit []ssa.Instruction
+				saysEmpty := func(x ssa.Instruction) bool {
+					rt, ok := x.(*ssa.Return)
+					return ok && !isConstBool(retVal(rt, 0), !emptyAnswer)
+				}
+				for _, e := range live {
+					if f, wt := (pathQuery{fn: g, target: saysEmpty}).find(ipos{e.from.Succs[e.succ], -1}); f {
+						bad, wit = true, wt
+					}
+				}
+				r.Cond(!bad, "GRD-elect", fmt.Sprintf("Vacuum:live-node-seen#%d", k), w.Pos(t.Pos()), "once a live node was seen the election cannot answer 'none'", "Vacuum can declare the graph empty (maxLevel = -1) although its election saw a live node: searches then return nothing while vectors are live, and later inserts start a second, disconnected graph", w.witness(wit)...)
+			}
+			if k > 0 {
+				return
+			}
+		}
+	}
 	isDelTest := func(in ssa.Instruction) bool {
 		c, ok := in.(*ssa.Call)
 		if !ok {
